@@ -95,6 +95,14 @@ class MySQLQueryBuilder(QueryBuilder):
                             value=value.get_sql(on_conflict_ctx),
                         )
                     )
+                elif self.alias is None:
+                    # without a row alias (INSERT ... AS alias) the new row is addressed with VALUES(col)
+                    updates.append(
+                        "{field}=VALUES({value})".format(
+                            field=field.get_sql(on_conflict_ctx),
+                            value=field.get_sql(on_conflict_ctx),
+                        )
+                    )
                 else:
                     updates.append(
                         "{field}={alias}.{value}".format(
